@@ -34,7 +34,7 @@ package internal
 //@   ensures [C04] no-escaping-panic: !panics
 //@   ensures [C02] shape: shapeOK
 //@   ensures [C11] predicate-false-skips-task: implies(hasPred && !pred && predPanic == nil, ncalls == 0 && result == nil && !ranFinal && outUnchanged && events(""))
-//@   ensures [C04,C11] predicate-panic-without-fallback-is-panic-error: implies(hasPred && predPanic != nil && !hasFallback, ncalls == 0 && isPanicErr(result, predPanic) && !ranFinal && outUnchanged && events("TaskPanic") && evarg("TaskPanic", 2) == predPanic)
+//@   ensures [C04,C11,C07] predicate-panic-without-fallback-is-panic-error: implies(hasPred && predPanic != nil && !hasFallback, ncalls == 0 && isPanicErr(result, predPanic) && !ranFinal && outUnchanged && events("TaskPanic") && evarg("TaskPanic", 2) == predPanic)
 //@   ensures [C11,C04] predicate-panic-with-fallback-substitutes: implies(hasPred && predPanic != nil && hasFallback, ncalls == 0 && result == nil && !ranFinal && outFromFallback && events("TaskPanicRecovered") && evarg("TaskPanicRecovered", 2) == predPanic)
 //@   ensures [C02,C11,C09] enabled-task-called-once-with-provider-values: implies(!hasPred || pred, ncalls == 1 && argsOK)
 //@   ensures [C02,C11,C18] success-stores-results: implies(called && !upanic && uerr == nil, result == nil && outFromCall && ranFinal && events("TaskSuccess,TaskDone"))
@@ -62,19 +62,19 @@ package internal
 //@   ensures [C04] no-escaping-panic: !panics
 //@   ensures [C10,C09] element-function-called-once-with-this-iterations-copies: ncalls == 1 && argsOK && shapeOK
 //@   ensures [C10,C07,C08] returns-users-error: implies(!upanic, result == uerr)
-//@   ensures [C04] panic-is-panic-error: implies(upanic, isPanicErr(result, pv))
+//@   ensures [C04,C10] panic-is-panic-error: implies(upanic, isPanicErr(result, pv))
 
 //@ func role:map-elem
 //@   ensures [C04] no-escaping-panic: !panics
 //@   ensures [C10,C09] entry-function-called-once-with-this-iterations-copies: ncalls == 1 && argsOK && shapeOK
 //@   ensures [C10,C07,C08] returns-users-error: implies(!upanic, result == uerr)
-//@   ensures [C04] panic-is-panic-error: implies(upanic, isPanicErr(result, pv))
+//@   ensures [C04,C10] panic-is-panic-error: implies(upanic, isPanicErr(result, pv))
 
 //@ func role:end-hook
 //@   ensures [C04] no-escaping-panic: !panics
 //@   ensures [C10,C09] end-function-called-once: ncalls == 1 && argsOK
 //@   ensures [C10,C07] returns-users-error: implies(!upanic, result == uerr)
-//@   ensures [C04] panic-is-panic-error: implies(upanic, isPanicErr(result, pv))
+//@   ensures [C04,C10] panic-is-panic-error: implies(upanic, isPanicErr(result, pv))
 
 // ---------------------------------------------------------------------------
 // Directive wrappers. Vocabulary bound at an exit of the wrapper literal:
@@ -95,7 +95,7 @@ package internal
 //@   ensures [C15] arguments-hoisted-once-in-source-order-before-generated-code: hoistedAssignedOnce && hoistOrdered && hoistBeforeGenerated
 //@   ensures [C02,C12] shared-cells-have-a-single-writer-and-distinct-types: singleWriter && cellTypesDistinct
 //@   ensures [C12] ran-flag-is-atomic: ranIsAtomic
-//@   ensures [C01,C12] every-reader-depends-on-the-writer-of-what-it-reads: implies(waitCalled, depsCoverReaders)
+//@   ensures [C01,C12,C02,C11] every-reader-depends-on-the-writer-of-what-it-reads: implies(waitCalled, depsCoverReaders)
 //@   ensures [C11] jobs-depend-only-on-providers-of-their-inputs: implies(waitCalled, depsOnlyProviders)
 //@   ensures [C02,C05,C06] every-job-enqueued-once-and-wait-called: waitCalled && everyJobEnqueuedOnce
 //@   ensures [C09] directive-context-passed-to-enqueue-and-wait: directiveCtxEverywhere
